@@ -324,6 +324,9 @@ func (i *interpreter) unop(fr *frame, instr *ssa.UnOp, x value) value {
 		}
 		return b.Neg(t)
 	case token.MUL:
+		if r, ok := x.(*symRef); ok {
+			return i.iteTable(r.a, r.idx)
+		}
 		return i.load(deref(instr.X.Type()), x.(*value))
 	case token.NOT:
 		return b.Not(x.(*Term))
